@@ -1235,7 +1235,9 @@ class DocutilsRenderer(RendererProtocol):
         if isinstance(token.content, str):
             try:
                 data = yaml.safe_load(token.content)
-            except yaml.YAMLError:
+            except (yaml.YAMLError, ValueError, KeyError, AttributeError, TypeError):
+                # PyYAML's constructors raise plain exceptions for scalars they
+                # cannot convert (e.g. the date 2023-02-30 or `!!int "x"`)
                 self.create_warning(
                     "Malformed YAML",
                     MystWarnings.MD_TOPMATTER,
